@@ -23,16 +23,18 @@ func init() {
 	ruleText["R05.3"] = "in the recursive closure of (*itype).methods, no unconditional store merging the result of a recursive call is reachable from the store recording the type's own methods (range over itype.method)"
 	ruleText["R05.4"] = "same analysis as C08/R08.1: no run-time closure writes (assignment, element/field store, also through a one-step local alias) to a variable captured from its generator; receivers and resolved method nodes are per-call values"
 	ruleText["R05.5"] = "getWrapper reaches (*itype).methods through direct calls (depth 2), as (*itype).implements does: wrapper selection and interface satisfaction are decided on the same method set"
+	ruleText["R05.6"] = "the SSA form of the method-resolution functions (methods, lookupMethod*, getMethod, lookupBinMethod*, lookupField, implements, lookupFieldOrMethod, getWrapper, with their closures) contains no Store/MapUpdate whose target is not a local (Alloc, MakeMap, captured local), no store into a package variable and no sync.Map mutation"
 	ruleText["R05.2"] = "in every function that creates a frame with newFrame, each element store into the new frame's data vector (directly or through a local slice of it) has as right-hand side reflect.New(t).Elem(), a copier call, a MakeFunc-built function value, or the frozen exception of directly assigned result slots (call: rvalues)"
 }
 
 func runC05(c *Config, r *Report) {
-	ic, err := loadInterp(c, false)
+	ic, err := loadInterp(c, true)
 	if err != nil {
 		r.Errorf("%v", err)
 		return
 	}
 	freshFrameSlots(ic, r, "R05.2")
+	pureLookups(ic, r, "R05.6")
 	c05R3(ic, r)
 	c05R5(ic, r)
 	// R05.4: method resolution and receiver binding happen per call. The run-time closures keep
